@@ -152,6 +152,12 @@ func (c *Ctx) writerModels() error {
 			return err
 		}
 	}
+	// the container layers (gzip.go, zlib/writer.go) over an abstract compressor, judged the same way
+	for _, cfg := range []string{"MC_GzipWriterMech.cfg", "MC_ZlibWriterMech.cfg"} {
+		if err := c.ModelCheck("GzipWriterMech", cfg, 5*time.Minute); err != nil {
+			return err
+		}
+	}
 	return nil
 }
 
